@@ -183,6 +183,15 @@ func runC17(c *core.Case) {
 			}
 			return true
 		}
+		if r.P(0.08) { // poison: the same request rejected for a malformed ID after this very voxel was processed
+			_, perr := transform.ConvertExtendedSpatialIDsToQuadkeysAndVerticalIDs(malformedAfter(r, []string{s}), H, Z, max, min)
+			c.Call()
+			if perr == nil {
+				c.Fail("bit-missing-error", nil, "a list ending in a malformed ID was accepted")
+				return
+			}
+			c.Tag("after-failed-call")
+		}
 		g1, e1 := transform.ConvertExtendedSpatialIDsToQuadkeysAndVerticalIDs([]string{s}, H, Z, max, min)
 		if !check("ConvertExtendedSpatialIDsToQuadkeysAndVerticalIDs", g1, e1) {
 			return
@@ -253,11 +262,21 @@ func runC17(c *core.Case) {
 				dup = true
 			}
 		}
+		_ = dup
 		if dup {
 			continue
 		}
 		var o bobj
 		var ok2 bool
+		if r.P(0.25) && len(list) == 1 { // adjacent element equal in everything but minHeight (same tile, same bit ID, same maxHeight)
+			min2 := min - span*[]float64{0.5, 1, 0.25, 3}[r.Intn(4)]
+			o, ok2 = mk(qz, q, Zb, k, min2, max)
+			if ok2 {
+				list = append(list, o)
+				c.Tag("backward-same-tile-other-min")
+			}
+			continue
+		}
 		if r.Bool() { // same bit zoom and index, other height range
 			min2 := min + float64(r.Range(-3, 3))*span/4
 			max2 := min2 + span*[]float64{0.5, 2, 1, 1.25}[r.Intn(4)]
@@ -307,34 +326,56 @@ func runC17(c *core.Case) {
 		}
 		perTile[t][a.F] = true
 	}
-	if len(perTile) != len(list) {
-		c.Fail("bit-backward-id", nil, "backward conversion returned %d tiles for %d objects", len(perTile), len(list))
+	type tk [2]int64
+	must := map[tk][][2]int64{}
+	may := map[tk][][2]int64{}
+	for _, o := range list {
+		t := tk{o.x, o.y}
+		must[t] = append(must[t], [2]int64{o.mustLo, o.mustHi})
+		may[t] = append(may[t], [2]int64{o.mayLo, o.mayHi})
+	}
+	if len(perTile) != len(must) {
+		c.Fail("bit-backward-id", nil, "backward conversion returned %d tiles for %d distinct tiles", len(perTile), len(must))
 		return
 	}
-	for _, o := range list {
-		fset := perTile[[2]int64{o.x, o.y}]
-		var fs []int64
-		for f := range fset {
-			fs = append(fs, f)
-		}
-		sort.Slice(fs, func(i, j int) bool { return fs[i] < fs[j] })
-		if len(fs) == 0 {
-			c.Fail("bit-backward-empty", nil, "no vertical index returned for tile %d/%d/%d", o.qz, o.x, o.y)
+	for t, musts := range must {
+		fset := perTile[t]
+		if len(fset) == 0 {
+			c.Fail("bit-backward-empty", nil, "no vertical index returned for tile %d/%d/%d", qz, t[0], t[1])
 			return
 		}
-		for i := 1; i < len(fs); i++ {
-			if fs[i] != fs[i-1]+1 {
-				c.Fail("bit-backward-not-contiguous", nil, "tile %d/%d/%d: vertical indices %v are not a contiguous run", o.qz, o.x, o.y, truncI(fs, 12))
+		for _, m := range musts {
+			for f := m[0]; f <= m[1]; f++ {
+				if !fset[f] {
+					c.Fail("bit-backward-lost", nil, "tile %d/%d/%d at vZoom %d: vertical index %d of a cell's covering run %d..%d is missing (objects: %v)", qz, t[0], t[1], V, f, m[0], m[1], desc)
+					return
+				}
+			}
+		}
+		for f := range fset {
+			in := false
+			for _, m := range may[t] {
+				if f >= m[0] && f <= m[1] {
+					in = true
+				}
+			}
+			if !in {
+				c.Fail("bit-backward-excess", nil, "tile %d/%d/%d at vZoom %d: vertical index %d lies outside every cell's admissible run %v (objects: %v)", qz, t[0], t[1], V, f, may[t], desc)
 				return
 			}
 		}
-		if fs[0] > o.mustLo || fs[len(fs)-1] < o.mustHi {
-			c.Fail("bit-backward-lost", nil, "tile %d/%d/%d, cell [%v,%v] m at vZoom %d: returned %d..%d does not cover %d..%d", o.qz, o.x, o.y, o.loF, o.hiF, V, fs[0], fs[len(fs)-1], o.mustLo, o.mustHi)
-			return
-		}
-		if fs[0] < o.mayLo || fs[len(fs)-1] > o.mayHi {
-			c.Fail("bit-backward-excess", nil, "tile %d/%d/%d, cell [%v,%v] m at vZoom %d: returned %d..%d exceeds %d..%d", o.qz, o.x, o.y, o.loF, o.hiF, V, fs[0], fs[len(fs)-1], o.mayLo, o.mayHi)
-			return
+		if len(musts) == 1 { // a single cell: the run must be contiguous
+			var fs []int64
+			for f := range fset {
+				fs = append(fs, f)
+			}
+			sort.Slice(fs, func(i, j int) bool { return fs[i] < fs[j] })
+			for i := 1; i < len(fs); i++ {
+				if fs[i] != fs[i-1]+1 {
+					c.Fail("bit-backward-not-contiguous", nil, "tile %d/%d/%d: vertical indices %v are not a contiguous run", qz, t[0], t[1], truncI(fs, 12))
+					return
+				}
+			}
 		}
 	}
 	c.Tag("backward")
